@@ -1,7 +1,7 @@
 #!/bin/sh
 # tools/try_mutant.sh <patch> <ID> [tier]: run one check against a scratch worktree of /repo with a seeded change applied
 # (VERIF_REPO points the harness at the worktree; evidence and replays go to a scratch directory). /repo itself is untouched.
-patch="$1"; id="$2"; tier="${3:-quick}"
+patch="$(readlink -f "$1")"; id="$2"; tier="${3:-quick}"
 wt="/tmp/trial_$$"
 /verif/tools/mkwt.sh "$wt" >/dev/null || exit 3
 git -C "$wt" apply "$patch" || { echo "patch does not apply"; /verif/tools/rmwt.sh "$wt"; exit 3; }
